@@ -408,6 +408,178 @@ theorem forward_not_expired {p : Params} {s s' : State} {au : Auth} {c : Call}
   obtain ⟨_, _, _, _, he, hap, _⟩ := collectFee_ok h1
   exact ⟨he, fun ha => (hap ha).2⟩
 
+
+/-! ### 8. the allowance the code leaves behind, exactly -/
+
+/-- **the stored allowance record user → forwarder after a successful forward, for both
+strategies, exactly as the code leaves it**: if the forwarder approved (Eager always; Lazy when
+the old allowance was below the maximum) the record is `{max_fee − fee, live_until = the quoted
+expiration}`; otherwise (Lazy with a sufficient old allowance) it is the old record lowered by
+`fee` with its old `live_until_ledger`. Every other allowance of the fee token reads as before,
+and every other token is untouched. -/
+theorem allowance_after_forward {p : Params} {s s' : State} {au : Auth} {c : Call}
+    {user rcp : Nat} {ap : Approval} {tgt : Target}
+    (h : collectFeeAndInvoke p s au c user rcp ap tgt = .ok s') :
+    OZ.Fungible.allowanceData (tokAt s' c.token) user p.self =
+      (if ap = .eager ∨ OZ.Fungible.allowance (tokAt s c.token) user p.self < c.maxFee
+       then ⟨c.maxFee - c.fee, c.expiration⟩
+       else ⟨(OZ.Fungible.allowanceData (tokAt s c.token) user p.self).amount - c.fee,
+             (OZ.Fungible.allowanceData (tokAt s c.token) user p.self).liveUntilLedger⟩) ∧
+    (∀ x y, ¬ (x = user ∧ y = p.self) →
+      OZ.Fungible.allowanceData (tokAt s' c.token) x y = OZ.Fungible.allowanceData (tokAt s c.token) x y) ∧
+    (∀ t, t ≠ c.token → tokAt s' t = tokAt s t) := by
+  obtain ⟨_, s1, h1, _, _, e⟩ := collectFeeAndInvoke_ok h
+  subst e
+  obtain ⟨d1, _, _⟩ := collectFee_allowanceData h1
+  obtain ⟨_, _, _, _, _, _, _, a2, _, _, a5, _, _, _, a9⟩ := collectFee_ok h1
+  refine ⟨d1, ?_, ?_⟩
+  · intro x y hxy
+    exact OZ.Fungible.allowanceData_congr_entry (s := tokAt s c.token) (s' := tokAt s1 c.token)
+      (a9 x y hxy) a2
+  · intro t ht
+    show ({ s1.toks t with now := s1.now } : OZ.Fungible.State) = { s.toks t with now := s.now }
+    rw [a5 t ht, a2]
+
+/-- the getter `allowance(user, forwarder)` after a successful forward -/
+theorem allowance_getter_after_forward {p : Params} {s s' : State} {au : Auth} {c : Call}
+    {user rcp : Nat} {ap : Approval} {tgt : Target}
+    (h : collectFeeAndInvoke p s au c user rcp ap tgt = .ok s') :
+    OZ.Fungible.allowance (tokAt s' c.token) user p.self =
+      (if ap = .eager ∨ OZ.Fungible.allowance (tokAt s c.token) user p.self < c.maxFee
+       then c.maxFee else OZ.Fungible.allowance (tokAt s c.token) user p.self) - c.fee ∧
+    0 ≤ OZ.Fungible.allowance (tokAt s' c.token) user p.self := by
+  obtain ⟨d, _, _⟩ := allowance_after_forward h
+  obtain ⟨f0, fm, _⟩ := charges_exactly_fee h
+  unfold OZ.Fungible.allowance at *
+  rw [d]
+  split
+  · exact ⟨rfl, by dsimp only; omega⟩
+  · rename_i hn
+    refine ⟨rfl, ?_⟩
+    have : ¬ (OZ.Fungible.allowanceData (tokAt s c.token) user p.self).amount < c.maxFee :=
+      fun h' => hn (.inr h')
+    dsimp only; omega
+
+/-- Eager (the permissionless example): always `max_fee − fee`, live until the quoted expiration -/
+theorem eager_allowance_after {p : Params} {s s' : State} {au : Auth} {c : Call}
+    {user rcp : Nat} {tgt : Target}
+    (h : collectFeeAndInvoke p s au c user rcp .eager tgt = .ok s') :
+    OZ.Fungible.allowanceData (tokAt s' c.token) user p.self = ⟨c.maxFee - c.fee, c.expiration⟩ := by
+  have := (allowance_after_forward h).1
+  rw [if_pos (.inl rfl)] at this
+  exact this
+
+/-- Lazy (the permissioned example): `old − fee` with the old expiry when the old allowance
+sufficed (`old ≥ max`), else `max_fee − fee` with the quoted expiration -/
+theorem lazy_allowance_after {p : Params} {s s' : State} {au : Auth} {c : Call}
+    {user rcp : Nat} {tgt : Target}
+    (h : collectFeeAndInvoke p s au c user rcp .lazy tgt = .ok s') :
+    (c.maxFee ≤ OZ.Fungible.allowance (tokAt s c.token) user p.self →
+      OZ.Fungible.allowanceData (tokAt s' c.token) user p.self =
+        ⟨OZ.Fungible.allowance (tokAt s c.token) user p.self - c.fee,
+         (OZ.Fungible.allowanceData (tokAt s c.token) user p.self).liveUntilLedger⟩) ∧
+    (OZ.Fungible.allowance (tokAt s c.token) user p.self < c.maxFee →
+      OZ.Fungible.allowanceData (tokAt s' c.token) user p.self = ⟨c.maxFee - c.fee, c.expiration⟩) := by
+  have := (allowance_after_forward h).1
+  constructor
+  · intro hge
+    rw [if_neg (by rintro (h' | h'); cases h'; omega)] at this
+    exact this
+  · intro hlt
+    rw [if_pos (.inr hlt)] at this
+    exact this
+
+/-! ### 9. completeness: a forward fails only when it must -/
+
+/-- **a forward succeeds IF AND ONLY IF** every one of these holds (`ForwardConditions`,
+`FeeConditions` in Lemmas/FeeForwarder.lean):
+the user signed exactly (token, max fee, expiration, target, fn, args); the token is accepted
+by the allow-list; user ≠ forwarder; `0 < fee ≤ max`; `now ≤ expiration`; when the forwarder
+approves (Eager, or Lazy with allowance < max) the user signed the nested
+`approve(user, forwarder, max, expiration)` and the token accepts the expiration
+(`≤ max live until`); otherwise the existing allowance record is rewritable (its expiry
+`≤ max live until` — true in every reachable state with a fixed ledger configuration); the
+user's balance covers the fee; the recipient's credit stays in i128 (automatic under the
+token's supply invariant, `forward_credit_never_overflows`); the target call goes through
+(and the user signed it if the target demands that). The allowance is then always
+sufficient (`fee ≤ max ≤` effective allowance), so it is not a separate condition. -/
+theorem forward_succeeds_iff (p : Params) (s : State) (au : Auth) (c : Call) (user rcp : Nat)
+    (ap : Approval) (tgt : Target) :
+    (∃ s', collectFeeAndInvoke p s au c user rcp ap tgt = .ok s') ↔
+      ForwardConditions p s au c user rcp ap tgt :=
+  ⟨fun ⟨_, h⟩ => collectFeeAndInvoke_conditions h, collectFeeAndInvoke_succeeds⟩
+
+/-- the same, spelled out as one flat conjunction -/
+theorem forward_succeeds_iff_flat (p : Params) (s : State) (au : Auth) (c : Call) (user rcp : Nat)
+    (ap : Approval) (tgt : Target) :
+    (∃ s', collectFeeAndInvoke p s au c user rcp ap tgt = .ok s') ↔
+      ((∃ ua, au.user = some ua ∧ ua.signer = user ∧
+          ua.tuple = ⟨c.token, c.maxFee, c.expiration, c.target, c.fn, c.args⟩) ∧
+       (s.al.count = 0 ∨ (s.al.indexOf c.token).isSome = true) ∧
+       p.self ≠ user ∧ 0 < c.fee ∧ c.fee ≤ c.maxFee ∧ s.now ≤ c.expiration ∧
+       ((ap = .eager ∨ OZ.Fungible.allowance (tokAt s c.token) user p.self < c.maxFee) →
+          subSigned au user (approveInv p c.token user c.maxFee c.expiration) = true ∧
+          c.expiration ≤ p.cfg.maxLiveUntil s.now) ∧
+       (¬ (ap = .eager ∨ OZ.Fungible.allowance (tokAt s c.token) user p.self < c.maxFee) →
+          (OZ.Fungible.allowanceData (tokAt s c.token) user p.self).liveUntilLedger ≤ p.cfg.maxLiveUntil s.now) ∧
+       c.fee ≤ (s.toks c.token).bal user ∧
+       in128 ((upd (s.toks c.token).bal user ((s.toks c.token).bal user - c.fee)) rcp + c.fee) ∧
+       (tgt = .ok ∨ (tgt = .needsUser ∧ subSigned au user (targetInv c) = true))) := by
+  rw [forward_succeeds_iff]
+  constructor
+  · intro ⟨h1, ⟨f1, f2, f3, f4, f5, f6, f7, f8, f9⟩, h3⟩
+    exact ⟨(userSigned_iff _ _ _).mp h1, (token_accepted_iff _ _).mp f1, f2, f3, f4, f5, f6, f7, f8, f9, h3⟩
+  · intro ⟨h1, f1, f2, f3, f4, f5, f6, f7, f8, f9, h3⟩
+    exact ⟨(userSigned_iff _ _ _).mpr h1, ⟨(token_accepted_iff _ _).mpr f1, f2, f3, f4, f5, f6, f7, f8, f9⟩, h3⟩
+
+/-- the permissionless example: additionally (and only) the relayer's authorization -/
+theorem forwardPL_succeeds_iff (p : Params) (s : State) (au : Auth) (c : Call) (user relayer : Nat)
+    (tgt : Target) :
+    (∃ s', forwardPermissionless p s au c user relayer tgt = .ok s') ↔
+      (relayer ∈ au.plain ∧ ForwardConditions p s au c user relayer .eager tgt) := by
+  constructor
+  · rintro ⟨s', h⟩
+    obtain ⟨h1, h2⟩ := forwardPL_requires h
+    exact ⟨h1, collectFeeAndInvoke_conditions h2⟩
+  · rintro ⟨h1, h2⟩
+    obtain ⟨s', hs⟩ := collectFeeAndInvoke_succeeds h2
+    exact ⟨s', by unfold forwardPermissionless; rw [requireAuth_of_mem h1, ok_bind]; exact hs⟩
+
+/-- the permissioned example: additionally (and only) the executor role and the relayer's
+authorization -/
+theorem forwardPD_succeeds_iff (p : Params) (s : State) (au : Auth) (c : Call) (user relayer : Nat)
+    (tgt : Target) :
+    (∃ s', forwardPermissioned p s au c user relayer tgt = .ok s') ↔
+      (relayer ∈ p.executors ∧ relayer ∈ au.plain ∧ ForwardConditions p s au c user p.self .lazy tgt) := by
+  constructor
+  · rintro ⟨s', h⟩
+    obtain ⟨h0, h1, h2⟩ := forwardPD_requires h
+    exact ⟨h0, h1, collectFeeAndInvoke_conditions h2⟩
+  · rintro ⟨h0, h1, h2⟩
+    obtain ⟨s', hs⟩ := collectFeeAndInvoke_succeeds h2
+    exact ⟨s', by
+      unfold forwardPermissioned
+      rw [ensureRole_of_mem h0, ok_bind, requireAuth_of_mem h1, ok_bind]; exact hs⟩
+
+/-- the overflow condition of `forward_succeeds_iff` is automatic whenever the fee token
+satisfies the supply invariant of C01 (every reachable token state does) -/
+theorem forward_credit_never_overflows {U : List Nat} (hn : U.Nodup) {ts : OZ.Fungible.State}
+    (hi : OZ.Fungible.Inv U ts) (user rcp : Nat) (fee : Int) (h0 : 0 < fee) (hb : fee ≤ ts.bal user) :
+    in128 ((upd ts.bal user (ts.bal user - fee)) rcp + fee) :=
+  credit_in128_of_inv hn hi user rcp fee (by omega) hb
+
+/-- under the conditions the effective allowance always covers the fee -/
+theorem forward_allowance_suffices {p : Params} {s : State} {au : Auth} {c : Call} {user rcp : Nat}
+    {ap : Approval} {tgt : Target} (hc : ForwardConditions p s au c user rcp ap tgt) :
+    c.fee ≤ (if ap = .eager ∨ OZ.Fungible.allowance (tokAt s c.token) user p.self < c.maxFee
+              then c.maxFee else OZ.Fungible.allowance (tokAt s c.token) user p.self) := by
+  have := hc.fee.feeMax
+  split
+  · exact this
+  · rename_i hn
+    have : ¬ OZ.Fungible.allowance (tokAt s c.token) user p.self < c.maxFee := fun h => hn (.inr h)
+    omega
+
 /-! ### non-vacuity (tests, labelled as such): concrete successful and failing forwards
 through both examples -/
 
@@ -441,5 +613,27 @@ example : enumerate (alRun AllowList.empty demoAl) = [10, 9, 8] ∧
     specRun (fun _ => false) demoAl 11 = false ∧ specRun (fun _ => false) demoAl 8 = true := by decide
 
 example : demoAl.length ≤ U32_MAX := by decide
+
+/-- the conditions of `forward_succeeds_iff` are met by the first demo forward (and not by the
+one whose signed maximum differs), and the allowance left behind is `max − fee = 5` until 120 -/
+example : ForwardConditions p0 (step p0 (init 100) (⟨[], none⟩, .mint 8 4 1000)) au0 c0 4 2 .eager .ok :=
+  (forward_succeeds_iff _ _ _ _ _ _ _ _).mp (by
+    have h : (collectFeeAndInvoke p0 (step p0 (init 100) (⟨[], none⟩, .mint 8 4 1000)) au0 c0 4 2
+        .eager .ok).toBool = true := by decide
+    cases hr : collectFeeAndInvoke p0 (step p0 (init 100) (⟨[], none⟩, .mint 8 4 1000)) au0 c0 4 2
+        .eager .ok with
+    | ok s' => exact ⟨s', rfl⟩
+    | error e => rw [hr] at h; cases h)
+
+example : ¬ ForwardConditions p0 (step p0 (init 100) (⟨[], none⟩, .mint 8 4 1000)) au0
+    { c0 with maxFee := 11 } 4 2 .eager .ok := by
+  intro h; have := h.signed; revert this; decide
+
+example : OZ.Fungible.allowanceData (tokAt (run p0 (init 100) (demoOps.take 2)) 8) 4 6 = ⟨5, 120⟩ := by decide
+
+/-- lazy with a sufficient old allowance (50 until ledger 150): `50 − 5`, the old expiry is kept -/
+example : OZ.Fungible.allowanceData (tokAt (run p0 (init 100)
+    [(⟨[], none⟩, .mint 8 4 1000), (⟨[4], none⟩, .approve 8 4 6 50 150),
+     (⟨[2], some { ua0 with subs := [] }⟩, .forwardPD c0 4 2 .ok)]) 8) 4 6 = ⟨45, 150⟩ := by decide
 
 end OZ.FeeForwarder
